@@ -530,14 +530,15 @@ theorem post_name_new (n : List Nat) : Post (TimeZoneName.new n) (fun r => r = n
       refine post_ok ⟨rfl, ?_, ?_, g2⟩ <;> omega
     · exact post_err
 
-/-- a constructed local time type: fields as given, offset not `i32::MIN`, name legal -/
+/-- a constructed local time type: fields as given, offset strictly within 24 h, name legal -/
 theorem post_ltt_new (off : Int) (dst : Bool) (name : Option (List Nat)) :
     Post (Ltt.new off dst name)
-      (fun t => t = ⟨off, dst, name⟩ ∧ off ≠ I32_MIN ∧ ∀ n, name = some n → NameOk n) := by
+      (fun t => t = ⟨off, dst, name⟩ ∧ (-86400 < off ∧ off < 86400) ∧ ∀ n, name = some n → NameOk n) := by
   unfold Ltt.new
   split
   · exact post_err
-  · rename_i g
+  · rename_i g0
+    have g : -86400 < off ∧ off < 86400 := by omega
     cases name with
     | none => exact post_ok ⟨rfl, g, by simp⟩
     | some n =>
